@@ -36,6 +36,8 @@ def run(ctx, replay=None):
         c = np.array(case['coords'], float)
         v = np.array(case['values'], float)
         has_dups = len(np.unique(c, axis=0)) < len(c)
+        cin = c.astype(case['coords_dtype']) if (case.get('coords_dtype') and np.all(c == np.round(c)) and c.min() >= 0) else c
+        ctx.count('coords_dtype', str(cin.dtype))
         kw = dict(n_lags=case['n_lags'], estimator=case['estimator'], fit_method='manual', fit_range=1.0, fit_sill=1.0, dist_func=case.get('dist_func', 'euclidean'))
         ctx.count('dist_func', case.get('dist_func', 'euclidean'))
         done = 0
@@ -45,19 +47,19 @@ def run(ctx, replay=None):
             edges = np.linspace(0, float(dall.max()), case['n_lags'] + 1)[1:]
             # (1) tolerance 180, no bandwidth limit (compass) = isotropic variogram
             for az in (case['azimuth'], 0, 90, 180):
-                D180 = DirectionalVariogram(c, v, azimuth=az, tolerance=180, directional_model='compass', bin_func=edges, **kw)
+                D180 = DirectionalVariogram(cin, v, azimuth=az, tolerance=180, directional_model='compass', bin_func=edges, **kw)
                 ISO = Variogram(c, v, bin_func=edges, **kw)
                 sig = {'what': 'tolerance-180-vs-isotropic', 'duplicates': bool(has_dups)}
                 same(ctx, dict(case, azimuth_used=az), 'tolerance 180 vs the isotropic variogram', triple(D180), triple(ISO), sig)
                 done += 1
             # the same for the triangle search area with a bandwidth that cannot exclude any pair (offsets are at most the largest distance)
             wide = 2.5 * float(pdist(c).max())
-            T180 = DirectionalVariogram(c, v, azimuth=case['azimuth'], tolerance=180, directional_model='triangle', bandwidth=wide, bin_func=edges, **kw)
+            T180 = DirectionalVariogram(cin, v, azimuth=case['azimuth'], tolerance=180, directional_model='triangle', bandwidth=wide, bin_func=edges, **kw)
             same(ctx, dict(case, bandwidth_used=wide), 'tolerance 180, triangle with a bandwidth beyond every offset, vs the isotropic variogram', triple(T180), triple(ISO),
                  {'what': 'tolerance-180-vs-isotropic', 'duplicates': bool(has_dups)})
             done += 1
             # the same with derived (even) edges
-            D180 = DirectionalVariogram(c, v, azimuth=case['azimuth'], tolerance=180, directional_model='compass', bin_func='even', **kw)
+            D180 = DirectionalVariogram(cin, v, azimuth=case['azimuth'], tolerance=180, directional_model='compass', bin_func='even', **kw)
             ISO = Variogram(c, v, bin_func='even', **kw)
             same(ctx, case, 'tolerance 180 vs the isotropic variogram (derived edges)', triple(D180), triple(ISO), {'what': 'tolerance-180-vs-isotropic', 'duplicates': bool(has_dups)})
             # (2) azimuth and azimuth +- 180
@@ -100,7 +102,7 @@ def run(ctx, replay=None):
                 azs = [(-90 + w / 2.0 + t * w) for t in range(k)]
                 masks, nearany = [], np.zeros(len(dall), bool)
                 for a_ in azs:
-                    S = DirectionalVariogram(c, v, azimuth=a_, tolerance=w, directional_model='compass', bin_func=edges, **kw)
+                    S = DirectionalVariogram(cin, v, azimuth=a_, tolerance=w, directional_model='compass', bin_func=edges, **kw)
                     masks.append(np.asarray(S._direction_mask(), bool))
                     s_, n_, d_ = dc.geometry(case, azimuth=a_, tolerance=w, model='compass')
                     nearany |= n_
